@@ -8,6 +8,12 @@ FLAVOURS = {
     },
 }
 
+FLAVOURS['sysalloc'] = {
+    # release build with the engine on the system allocator and the harness' counting allocator installed
+    'cmd': ['cargo', 'build', '--release', '--offline', '--features', 'sysalloc', '--bin', 'axv', '--target-dir', '../target/sysalloc'],
+    'bin': 'target/sysalloc/release/axv',
+}
+
 EXPLORATION_ASSUMPTIONS = [
     'the reference model (harness/src/model.rs) is the SQL semantics the property refers to',
     'release-equivalent build (debug assertions and overflow checks off), feature verif on',
@@ -151,6 +157,21 @@ CHECKS['C19'] = {
     'technique': 'law-style runtime monitor over exhaustive boundary grids (pairs, triples) and random values with an exact-arithmetic oracle; SQL cross-check of ORDER BY / DISTINCT / GROUP BY / IN / index lookup',
     'level_text': 'All 64 + 64^2 + 64^3 grid cases plus 320k (quick) / 6.4M (thorough) random cases are evaluated against the law set; SQL probes on 1600+ single-column tables. Exhaustive on the grid only.',
     'level_note': 'Signatures carry the special-value atom (nan, zero, beyond-2^53) when one explains the case, otherwise the type names; the six open findings are exactly those atoms.',
+}
+
+CHECKS['C20'] = {
+    'level': 'exploration',
+    'rule': 'structured generator over every Request / Response variant and field (empty / huge / non-ASCII strings, 0..40 columns x 0..2000 rows, NaN payloads, u64 extremes): decode(encode(m)) == m and '
+            'read_message(write_message(b)) == b; frame sizes 0, 1, 16 MiB - 1, 16 MiB, 16 MiB + 1; garbage: random bytes, valid header + random tail, truncations, extreme length/count fields, bit flips, fed to '
+            'Request::from_bytes, Response::from_bytes and read_message under catch_unwind with a counting global allocator (largest single allocation request must stay within 64 x input + 64 KiB; 17 MiB for the frame reader). '
+            'Distinct = hash of the encoded bytes; every case is non-trivial.',
+    'legs': {'quick': [{'flavour': 'sysalloc', 'shards': 16}], 'thorough': [{'flavour': 'sysalloc', 'shards': 16}]},
+    'min_evaluations': {'quick': 200000, 'thorough': 3000000},
+    'min_counters': {'quick': {'alloc_accounted_decodes': 300000, 'frame_boundary_cases': 5}, 'thorough': {'alloc_accounted_decodes': 5000000}},
+    'assumptions': ['the engine is built with feature verif_sysalloc so that the harness owns the global allocator', 'Response has no PartialEq: values are compared through their Debug rendering (f64 through to_bits)'],
+    'technique': 'round-trip monitor + decoder fuzzing under catch_unwind with a counting allocator (allocation-bound oracle); process deaths attributed through declared intents',
+    'level_text': '128k (quick) / 1.9M (thorough) structured messages round-trip through encode/frame/decode, and 192k / 3.2M hostile byte strings go through all three decoders; none may panic, kill the process, or request more memory than a small multiple of the input.',
+    'level_note': 'The server binary (accept loop, query_result_to_response) is exercised by the server leg when built; hang detection relies on the worker watchdog.',
 }
 
 NOT_APPLICABLE = [{'property_id': c, 'reason': 'check not built yet in this session (work in progress, see DESIGN.md)'} for c in ALL if c not in CHECKS]
